@@ -137,6 +137,15 @@ static NS int d_gpcal_(void) { return d_ncpu > 0 ? d_ncpu : d_gpcal_void(); }
 #define malloc d_malloc
 #define calloc d_calloc
 #define free d_free
+/* directed schedules may also order the acquisitions / releases of call_rcu_mutex ("<thread> lock call_rcu_mutex"): the windows between
+ * two critical sections of one function (call_rcu_data_free drops the mutex around get_default_call_rcu_data()) have no other visible event */
+static pthread_mutex_t *d_crm;
+static NS int d_mutex_lock(pthread_mutex_t *m) { int g = m == d_crm ? gate("lock", "call_rcu_mutex") : -1; int r = vrt_mutex_lock(m); gate_done(g); return r; }
+static NS int d_mutex_unlock(pthread_mutex_t *m) { int g = m == d_crm ? gate("unlock", "call_rcu_mutex") : -1; int r = vrt_mutex_unlock(m); gate_done(g); return r; }
+#undef pthread_mutex_lock
+#undef pthread_mutex_unlock
+#define pthread_mutex_lock d_mutex_lock
+#define pthread_mutex_unlock d_mutex_unlock
 #ifndef CR_REAL
 #include REPO_SRC(urcu-call-rcu-impl.h)
 #elif defined(CR_FLAVOR_MB)
@@ -154,6 +163,10 @@ static NS int d_gpcal_(void) { return d_ncpu > 0 ? d_ncpu : d_gpcal_void(); }
 #undef calloc
 #undef free
 #undef get_possible_cpus_array_len
+#undef pthread_mutex_lock
+#undef pthread_mutex_unlock
+#define pthread_mutex_lock vrt_mutex_lock
+#define pthread_mutex_unlock vrt_mutex_unlock
 /* the included sources reference the compat futex fallback (only used when futex() returns ENOSYS) */
 int compat_futex_noasync(int32_t *uaddr, int op, int32_t val, const struct timespec *timeout, int32_t *uaddr2, int32_t val3)
 { (void) uaddr; (void) op; (void) val; (void) timeout; (void) uaddr2; (void) val3; vrt_fail("RUNTIME compat futex fallback reached"); }
@@ -420,7 +433,7 @@ int main(int argc, char **argv)
 	for (int k = 0; k < MAXN; k++) { objs[k].id = k; vrt_name_val(&objs[k].head, "n%d", k); vrt_name(&objs[k].head.next.next, VK_PTR, "n%d.next", k); }
 	vrt_name(&default_call_rcu_data, VK_PTR, "dflt");
 	vrt_name(&per_cpu_call_rcu_data, VK_PTR, "pcpu");
-	vrt_name_mutex(&call_rcu_mutex, "call_rcu_mutex");
+	vrt_name_mutex(&call_rcu_mutex, "call_rcu_mutex"); d_crm = &call_rcu_mutex;
 	vrt_set_unknown_ptr_hook(name_unknown);
 	for (int k = 0; k < np; k++) vrt_spawn(P[k].name, runner, &P[k]);
 	vrt_run(&o);
